@@ -90,4 +90,19 @@ def runChain : List PassId → Schemas → Outcome Schemas
     | .err e => .err e
     | .panic x => .panic x
 
+def isInline : PassId → Bool
+  | .inlineObjectsWithTypes _ => true
+  | _ => false
+
+/-- limit of the tree model (see FlattenDisjunctions.lean): FlattenDisjunctions leaves kind pointers
+    shared between two objects and a later InlineObjectsWithTypes of the same chain mutates them in
+    place.  On such inputs the model does not claim an output. -/
+def chainShared : List PassId → Schemas → Bool
+  | [], _ => false
+  | p :: ps, ss =>
+    (p == .flattenDisjunctions && ps.any isInline && FlattenDisjunctions.sharesMutable ss) ||
+    (match p.run ss with
+     | .ok ss' => chainShared ps ss'
+     | _ => false)
+
 end Cog.Passes
